@@ -39,6 +39,7 @@ type Obligation struct {
 	ByHyp   bool
 	Slow    bool
 	chainSet map[string]bool
+	Ungenerated string // non-empty: the obligation could not be generated/stated on the current code (counts as failed)
 }
 
 type deferred struct {
@@ -111,6 +112,8 @@ type FnCtx struct {
 	noDefine int
 	cmdOnly  map[int]string // cmd index -> comma separated obligation labels it is relevant for
 	curOnly  string
+	mtDepth  int
+	genStarted bool
 	useBound map[string]Val // extra spec bindings (the results) for function-level `use` lines instantiated at an exit
 	cmdFact  map[int]string // cmd index -> label of the contract clause this fact comes from
 	curFact  string
